@@ -469,6 +469,47 @@ def other_forms(L):
         if runs["n"] != 1 or not (r1 == r2 == r3):
             out.append(("C12/cached_property/getter-reran+one-descriptor-two-names",
                         {"engine": "scenario", "expected": "one getter run, one value", "observed": {"runs": runs["n"], "values": [repr(r1), repr(r2), repr(r3)]}}))
+    # (3) a subclass overrides the property and builds on the inherited one (`await super().value`): each getter runs
+    #     once, the subclass's value is what stays cached (functools.cached_property: the same)
+    order = []
+
+    class Base:
+        @L.cached_property
+        async def value(self):
+            order.append("base")
+            return 1
+
+    class Child(Base):
+        @L.cached_property
+        async def value(self):
+            order.append("child")
+            return (await super().value) + 1
+
+    inst = Child()
+    r1 = go(_await(lambda: inst.value))
+    r2 = go(_await(lambda: inst.value))
+    if (r1, r2, order) != (("done", 2), ("done", 2), ["child", "base"]):
+        out.append(("C12/cached_property/overriding-property-that-awaits-the-inherited-one",
+                    {"engine": "scenario", "expected": {"values": [2, 2], "getter_runs": ["child", "base"]},
+                     "observed": {"values": [repr(r1)[:80], repr(r2)[:80]], "getter_runs": order}}))
+    # (4) the instance dictionary is replaced as a whole (a reset) while a computation is outstanding: the value goes
+    #     where the instance's attributes are NOW, and is served from there afterwards
+    runs["n"] = 0
+
+    class Resettable:
+        @L.cached_property
+        async def value(self):
+            runs["n"] += 1
+            return ("val", runs["n"])
+
+    inst = Resettable()
+    pending = inst.value
+    inst.__dict__ = {}
+    r1 = go(_await(lambda: pending))
+    r2 = go(_await(lambda: inst.value))
+    if runs["n"] != 1 or r1 != r2 or r1[0] != "done":
+        out.append(("C12/cached_property/value-lost-when-the-instance-dict-was-replaced",
+                    {"engine": "scenario", "expected": "one getter run, the value served afterwards", "observed": {"runs": runs["n"], "values": [repr(r1)[:80], repr(r2)[:80]]}}))
     return out
 
 
